@@ -167,4 +167,18 @@ PROPS = {
         'assumptions': ['types of identifiers/literals/casts/measurements/calls are observed from the implementation, not modelled (lit_typed hypothesis checked by the driver)'],
         'partial': ['expression typing rules for identifiers, casts, measurements and calls are checked on the implementation only'],
     },
+    'C09': {
+        'coq': 'Props/C09.v',
+        'families': [
+            {'name': 'semw', 'args': {'quick': ['--random', 40], 'thorough': ['--random', 2000]}, 'driver_args': []},
+        ],
+        'exhaustive': {'quick': False, 'thorough': False},
+        'rule': 'every declaration form: 7 width-taking kinds (int, uint, float, angle, complex, bit register, qubit register) and 3 others x '
+                'const/non-const x 3 scope depths x designator {absent, integer literal, const identifier} x widths {1,2,7,8,64,128,255,2^16-1,'
+                '2^16,2^31-1,2^31,2^32-1,2^32,2^32+1,2^33,2^33+5,2^64,2^128-1,0} + random widths over 1..34 bits, spelled in 4 radices '
+                'and with underscores, plus non-integer literal, const of non-integer value and non-const identifier designators',
+        'trusted_base': ['Model/Declared.v (hand-written mirror of designator_to_asg, scalar_type_to_type)'],
+        'assumptions': ['designators that are general expressions or undefined names make the analyser panic: listed under C03'],
+        'partial': ['gate arity, subroutine signature and the gate listing are checked on the implementation only (C13 family)'],
+    },
 }
